@@ -637,28 +637,52 @@ def process_block(blk, emitted_items):
         if it["kind"] != "fn":
             raise TemplateError("slice of a non-fn")
         body = it["text"][it["open"]:]
+        if a.get("block_after"):
+            # the slice is the inside of the first brace group that follows the anchor (e.g. a closure body)
+            anc = a["block_after"]
+            pos = -1
+            for _ in range(int(a.get("nth", 1))):
+                pos = body.find(anc, pos + 1)
+                if pos < 0:
+                    raise AnchorLost("slice block_after anchor %r (nth=%s) not found in %s" % (anc, a.get("nth", 1), item))
+            mb0 = mask(body)
+            o0 = mb0.find("{", pos + len(anc) - 1) if anc.rstrip().endswith("{") else find_at_depth0(mb0, pos + len(anc), len(mb0), ["{"])
+            c0 = match_close(mb0, o0)
+            a = dict(a)
+            a["_range"] = (o0 + 1, c0)
         f, t = a.get("from"), a.get("to")
-        i0 = body.find(f)
-        if i0 < 0:
-            raise AnchorLost("slice from-anchor %r not found in %s" % (f, item))
-        s0 = line_start(body, i0)
-        i1 = body.find(t, i0 if f != t else i0)
-        if a.get("to_nth"):
-            i1 = i0 - 1
-            for _ in range(int(a["to_nth"])):
-                i1 = body.find(t, i1 + 1)
-        if i1 < 0:
-            raise AnchorLost("slice to-anchor %r not found in %s" % (t, item))
-        mb = mask(body)
-        if a.get("to_block"):
-            o = find_at_depth0(mb, i1, len(mb), ["{"])
-            e = match_close(mb, o) + 1
-        else:
-            e = find_at_depth0(mb, i1, len(mb), [";"])
-            if e < 0:
-                raise AnchorLost("slice end: no `;` after %r" % t)
-            e += 1
-        sl = body[s0:e]
+        if a.get("_range"):
+            s0, e = a["_range"]
+            # trim to whole lines
+            while s0 < e and body[s0] in " \t":
+                s0 += 1
+            if body[s0] == "\n":
+                s0 += 1
+            sl = body[s0:e].rstrip()
+            e = s0 + len(sl)
+            i0 = s0
+        i0 = body.find(f) if not a.get("_range") else i0
+        if not a.get("_range"):
+            if i0 < 0:
+                raise AnchorLost("slice from-anchor %r not found in %s" % (f, item))
+            s0 = line_start(body, i0)
+            i1 = body.find(t, i0 if f != t else i0)
+            if a.get("to_nth"):
+                i1 = i0 - 1
+                for _ in range(int(a["to_nth"])):
+                    i1 = body.find(t, i1 + 1)
+            if i1 < 0:
+                raise AnchorLost("slice to-anchor %r not found in %s" % (t, item))
+            mb = mask(body)
+            if a.get("to_block"):
+                o = find_at_depth0(mb, i1, len(mb), ["{"])
+                e = match_close(mb, o) + 1
+            else:
+                e = find_at_depth0(mb, i1, len(mb), [";"])
+                if e < 0:
+                    raise AnchorLost("slice end: no `;` after %r" % t)
+                e += 1
+            sl = body[s0:e]
         msl = mask(sl)
         if msl.count("{") != msl.count("}") or msl.count("(") != msl.count(")"):
             raise AnchorLost("slice %s: unbalanced (anchors moved?)" % item)
